@@ -80,7 +80,7 @@ func (m *Model[S]) Run(rep *Report) XResult {
 	var frontier [][]int
 	visit := func(hist []int) bool {
 		s, obs := m.build(hist)
-		k := hashKey(m.Key(s))
+		k := hashKey(m.Name + "\x00" + m.Key(s))
 		if e, ok := seen[k]; ok {
 			res.Merges++
 			if m.Probe != nil {
@@ -101,6 +101,7 @@ func (m *Model[S]) Run(rep *Report) XResult {
 		}
 		seen[k] = e
 		res.States++
+		rep.StateHashes = append(rep.StateHashes, k[:8]...)
 		return true
 	}
 	for _, r := range roots {
